@@ -162,13 +162,19 @@ func H05_error() {
 	M := vhParam("maxBlocks", 3)
 	R := vhB
 	nb := vhCase("blocks", vhParam("blocksLo", 1), M)
-	N := nb * vhB
+	// optional 12-byte last block: blocks of <= 15 bytes are stored in copy mode (own decoding path)
+	tail := 12 * vhCase("tailBlock", 0, vhParam("tailMax", 0))
+	N := nb*vhB + tail
+	nbT := nb
+	if tail > 0 {
+		nbT++
+	}
 	data := vhArb("data", N)
 	hint := vhI64("sizeHint")
 	vhAssume(hint >= 0)
 	tape := vhWriteTape(data, JW, 32, hint)
-	k := vhCase("badBlock", vhParam("badLo", 1), M)
-	if k > nb {
+	k := vhCase("badBlock", vhParam("badLo", 1), M+vhParam("tailMax", 0))
+	if k > nbT {
 		return
 	}
 	// locate the k-th payload event and flip one bit of its stored checksum (bytes after mode + length bytes)
@@ -187,10 +193,10 @@ func H05_error() {
 	ctx := map[string]any{"jobs": uint(JR)}
 	r, err := NewReaderWithCtx2(ibs, ctx)
 	vhAssert(err == nil, "reader-constructed")
-	out := make([]byte, (M+2)*vhB)
+	out := make([]byte, (M+3)*vhB)
 	total := 0
 	sawErr := false
-	for calls := 0; calls < M+4; calls++ {
+	for calls := 0; calls < M+5; calls++ {
 		n, err := r.Read(out[total : total+R])
 		total += n
 		if err != nil && err != stdio.EOF {
